@@ -66,6 +66,15 @@ Definition is_unhashable (j : pv) : bool :=
   | _ => false
   end.
 
+(* hash(o) succeeds: lists, sets, deques, dicts, bytearrays and (eq=True) dataclass instances do not hash,
+   tuples / frozensets / namedtuples hash when their elements do *)
+Fixpoint hashable (v : pv) : bool :=
+  match v with
+  | VSeq STuple _ xs | VSeq SFrozenSet _ xs | VNT _ xs => forallb hashable xs
+  | VSeq _ _ _ | VDict _ _ _ | VBytes true _ _ | VInst _ _ => false
+  | _ => true
+  end.
+
 Definition z_text : pstr := S "Z".
 
 Section Load.
@@ -125,8 +134,8 @@ Definition load_bool (j : pv) : res pv :=
   | VStr s => if forallb is_ascii s then Ok (VBool (mem_str (lower s) truthy_values))
               else unmodelled "str.lower() on non-ASCII"
   | VInt z => Ok (VBool (Z.eqb z 1))
-  | VFloat _ => bind (want_int (ocall "float_eq_int" j))
-                     (fun v => match v with VInt z => Ok (VBool (Z.eqb z 1)) | _ => Ok (VBool false) end)
+  | VFloat _ => bind (ocall "float_eq_int" j)      (* VInt z when the float equals the integer z, else VNone *)
+                     (fun v => Ok (VBool (match v with VInt z => Z.eqb z 1 | _ => false end)))
   | VNone | VSeq _ _ _ | VDict _ _ _ | VNT _ _ => Ok (VBool false)
   | _ => unmodelled "as_bool"
   end.
@@ -270,14 +279,6 @@ Definition load_literal (vs : list pv) (j : pv) : res pv :=
        end.
 
 (* ---- helpers for UnionParser ------------------------------------------------------ *)
-Definition accepts_none (t : ty) : bool :=
-  match t with
-  | TNone | TOptional _ => true
-  | TUnion ts => existsb (fun t' => match t' with TNone => true | _ => false end) ts
-  | TLiteral vs => existsb (fun m => match m with VNone => true | _ => false end) vs
-  | _ => false
-  end.
-
 (* `o in parser` : AbstractParser.__contains__ = `type(o) is base_type`; LiteralParser: value lookup *)
 Definition contains (t : ty) (j : pv) : res bool :=
   match t with
@@ -517,14 +518,16 @@ Fixpoint load (t : ty) (j : pv) {struct t} : res pv :=
   | TSeq k t' =>
       bind (iter_of j) (fun xs =>
       bind (seqR (map (load t') xs)) (fun ys =>
-      Ok (VSeq k false (if is_set_kind k then dedupe ys else ys))))
+      if is_set_kind k then
+        (if forallb hashable ys then Ok (VSeq k false (dedupe ys)) else raise "TypeError")
+      else Ok (VSeq k false ys)))
   | TTuple ts =>
       match ts with
       | [] => unmodelled "tuple[()]"
       | _ =>
         bind (iter_of j) (fun xs =>
           let n := List.length xs in
-          let req := List.length (filter (fun t' => negb (accepts_none t')) ts) in
+          let req := required_count ts in
           if (Nat.leb req n && Nat.leb n (List.length ts))%bool
           then rmap (VSeq STuple false) (zip_load load ts xs)
           else raise "ParseError")
@@ -534,9 +537,10 @@ Fixpoint load (t : ty) (j : pv) {struct t} : res pv :=
   | TDict k kt vt =>
       match j with
       | VDict _ _ kvs =>
-          rmap (fun ps => VDict k false (dict_of_pairs ps))
-               (seqR (map (fun kv => bind (load kt (fst kv)) (fun k' =>
+          bind (seqR (map (fun kv => bind (load kt (fst kv)) (fun k' =>
                                      bind (load vt (snd kv)) (fun v' => Ok (k', v')))) kvs))
+               (fun ps => if forallb (fun kv => hashable (fst kv)) ps
+                          then Ok (VDict k false (dict_of_pairs ps)) else raise "TypeError")
       | VTok _ | VBytes _ _ _ | VEnum _ _ _ => unmodelled "o.items()"
       | _ => raise "AttributeError"
       end
@@ -584,6 +588,7 @@ Fixpoint load (t : ty) (j : pv) {struct t} : res pv :=
   end.
 
 End Load.
+Arguments apply_nth {A B} f dflt l i.
 
 (* ---- finite oracle table (execution by the correspondence harness) ----------- *)
 Fixpoint tbl_lookup (fn : pstr) (a : pv) (tbl : list ((pstr * pv) * option pv)) : ores :=
